@@ -646,6 +646,7 @@ func (u *Unit) binop(st *State, op token.Token, xv, yv Val, xt types.Type, pos t
 			name := map[token.Token]string{token.AND: "bitand", token.OR: "bitor", token.XOR: "bitxor", token.AND_NOT: "bitandnot"}[op]
 			f := u.ctx.Func(name, []Sort{SInt, SInt}, SInt)
 			r := u.ctx.Define("bit", App(SInt, f, x, y))
+			u.bitFacts(name, x, y, App(SInt, f, x, y))
 			if op == token.AND {
 				u.assume(st, Implies(And(Ge(x, IntLit(0)), Ge(y, IntLit(0))), And(Ge(r, IntLit(0)), Le(r, x), Le(r, y))))
 			}
@@ -660,6 +661,36 @@ func (u *Unit) binop(st *State, op token.Token, xv, yv Val, xt types.Type, pos t
 	}
 	unsupp("binary %s on %s", op, x.Sort)
 	return nil
+}
+
+// bitFacts: exact meaning of x & c and x | c on non-negative mathematical integers
+// when one operand is a constant power of two 2^k (a flag test / a flag set):
+//
+//	x & 2^k == ((x div 2^k) mod 2) * 2^k        x | 2^k == x + 2^k - (x & 2^k)
+//
+// stated as ground axioms about the uninterpreted bitand / bitor terms.
+func (u *Unit) bitFacts(name string, x, y, r *Term) {
+	if name != "bitand" && name != "bitor" {
+		return
+	}
+	v, c := x, y
+	cb, ok := smallConstBig(c)
+	if !ok {
+		v, c = y, x
+		cb, ok = smallConstBig(c)
+	}
+	if !ok || cb.Sign() <= 0 || new(big.Int).And(cb, new(big.Int).Sub(cb, big.NewInt(1))).Sign() != 0 {
+		return
+	}
+	band := u.ctx.Func("bitand", []Sort{SInt, SInt}, SInt)
+	andT := App(SInt, band, x, y)
+	bit := Mul(mk(SInt, "mod", mk(SInt, "div", v, c), IntLit(2)), c)
+	nonneg := Ge(v, IntLit(0))
+	if name == "bitand" {
+		u.ctx.Axiom(Implies(nonneg, Eq(r, bit)))
+		return
+	}
+	u.ctx.Axiom(Implies(nonneg, And(Eq(andT, bit), Eq(r, Sub(Add(v, c), andT)))))
 }
 
 type divRec struct{ x, y, q *Term }
